@@ -24,6 +24,15 @@ def cfg(n=2):
     return c
 
 
+def cfg_pack():
+    """INBOX(3) with the pack threshold lowered to 2 messages: a gap in the numbering makes the next idle period pack the folder."""
+    c = cfg(3)
+    c["name"] = "c13-pack"
+    c["pack_limit"] = 2
+    c["pack_ratio"] = 0.8
+    return c
+
+
 def alphabet(tier):
     A, B = "A", "B"
     ev = [
@@ -100,6 +109,12 @@ def run(tier, seed, jobs):
             {"s": "A", "op": "del", "set": "*"}, {"s": "A", "op": "store", "set": "*", "mode": "+", "flags": "\\Answered \\Flagged"},
             {"s": "A", "op": "noop"}, {"s": "env", "op": "poll", "dt": 21.0}]
     plans.append({"cfg_ref": ("vf.props.c13", "cfg", [2]), "alphabet": core, "depth": 5 if tier == "quick" else 6, "label": "INBOX(2), core alphabet, deep"})
+    # deliveries around a pack: a message that arrives within the second of the folder's mtime is still unknown when the idle
+    # period packs the folder
+    packa = [{"s": "A", "op": "del", "set": "1"}, {"s": "env", "op": "latent", "m": "INBOX", "then": {"s": "env", "op": "poll", "dt": 21.0}},
+             {"s": "env", "op": "deliver", "m": "INBOX", "unseen": True}, {"s": "A", "op": "noop"}, {"s": "env", "op": "poll", "dt": 21.0},
+             {"s": "env", "op": "latent", "m": "INBOX", "unseen": False, "then": {"s": "A", "op": "store", "set": "1", "mode": "+", "flags": "\\Flagged"}}]
+    plans.append({"cfg_ref": ("vf.props.c13", "cfg_pack", []), "alphabet": packa, "depth": 4 if tier == "quick" else 5, "label": "INBOX(3), pack threshold 2: deliveries around a pack"})
     res = run_h(PROP, RULES, plans, ("C13", "C04"), jobs, seed,
                  ["the delivery agent writes message max+1, optionally appends it to `unseen` preserving every other line, and always "
                   "advances the folder mtime (the premise of the property); a `tick` advances the mtime only",
